@@ -9,6 +9,7 @@ Partial by design: the floating-point estimate windows of `compute_lattice_index
 Wiedemann / Berlekamp–Massey code of intsparse.rs have no theorem (K/O only).
 -/
 import Ymq.Lemmas.IntMatCrt
+import Ymq.Lemmas.IntMatPerm
 import Mathlib.Algebra.Order.BigOperators.Group.List
 import Mathlib.Data.Int.GCD
 
@@ -200,5 +201,21 @@ example : ∃ inv : Inv, InvSpec inv ∧ crtDense inv [3, 4] [5, 7] = some (-17)
     linarith
   · decide
   · decide
+
+/-- **Permutation sign** (`GFpEchelonBuilder::det`, the loop over `ind = self.indices.clone()`).
+For every permutation `σ` of `0..n-1`, given as the index vector `ind[i] = σ(i)`
+(`permList σ`), the cycle walk terminates without index panic and the number `k` of `ind.swap`
+calls it counts satisfies `(-1)^k = sign σ` (`Equiv.Perm.sign` of Mathlib): the code negates the
+product of the pivots exactly for odd permutations. -/
+theorem perm_sign (n : Nat) (σ : Equiv.Perm (Fin n)) :
+    ∃ k, permSwaps (permList σ) = some k ∧ (-1 : ℤˣ) ^ k = Equiv.Perm.sign σ := by
+  unfold permSwaps
+  rw [permList_length]
+  obtain ⟨r, h1, h2⟩ := cycleWalk_spec (2 * n + 1) 0 σ 0 (Nat.zero_le _)
+    (fun k hk => absurd hk (Nat.not_lt_zero _)) (by have := moved_le σ; omega)
+  exact ⟨r, h1, by simpa using h2⟩
+
+/-- the model computes: the 3-cycle `0 → 1 → 2 → 0` is sorted with two swaps (even) -/
+example : permSwaps [1, 2, 0] = some 2 := by decide
 
 end Ymq.C19
